@@ -2137,8 +2137,13 @@ class unyt_array(np.ndarray):
                 if unit.is_dimensionless and unit.base_value != 1.0:
                     if not u0.is_dimensionless:
                         if u0.dimensions == u1.dimensions:
+                            # only where the ufunc itself wrote: elements masked
+                            # out by where= keep what the caller's buffer held
                             out_arr = np.multiply(
-                                out_arr.view(np.ndarray), unit.base_value, out=out_func
+                                out_arr.view(np.ndarray),
+                                unit.base_value,
+                                out=out_func,
+                                **{k: kwargs[k] for k in ("where",) if k in kwargs},
                             )
                             unit = Unit(registry=unit.registry)
                 if (
@@ -2193,7 +2198,14 @@ class unyt_array(np.ndarray):
                 # scale the bare buffer: going through out itself would dispatch
                 # back here with out's stale units and recurse without end when
                 # those units carry a numeric coefficient (e.g. "3*km")
-                np.multiply(out_func, mul, out=out_func)
+                # only where the ufunc itself wrote: elements masked out by
+                # where= keep what the caller's buffer held
+                np.multiply(
+                    out_func,
+                    mul,
+                    out=out_func,
+                    **{k: kwargs[k] for k in ("where",) if k in kwargs},
+                )
                 if np.shares_memory(out_arr, out):
                     mul = 1
             if isinstance(out, unyt_array):
